@@ -518,6 +518,7 @@ func (e *Exec) assertProp(c Value, id string) {
 		if c {
 			ar.Status = "discharged"
 		} else {
+			e.live() // a path queued without a model may be infeasible: make sure it is not before reporting
 			ar.Status = "violated"
 			ar.Inputs = e.inputSnapshot(e.model)
 		}
@@ -592,12 +593,31 @@ func (e *Exec) Run(entry *ssa.Function) (res PathResult, children []PathItem) {
 		default:
 			panic(r)
 		}
+		if e.needModel && (e.res.Status == "panic" || e.res.Status == "budget" || e.res.Status == "deadlock") {
+			// the path was queued without a model (parent query unknown): confirm that it is feasible at all
+			e.needModel = false
+			chk, _ := e.solver.Check()
+			e.res.Queries++
+			switch chk {
+			case "sat":
+				if m, merr := e.solver.GetModel(e.inputs); merr == nil {
+					e.model = m
+					e.res.Inputs = e.inputSnapshot(m)
+				} else {
+					e.res.Status, e.res.Detail = "inconclusive", "no model for a path that ended in "+e.res.Status
+				}
+			case "unsat":
+				e.res.Status, e.res.Detail = "infeasible", "path prefix unsatisfiable"
+			default:
+				e.res.Status, e.res.Detail = "inconclusive", "feasibility of a path that ended abnormally could not be decided"
+			}
+		}
 		for c := range e.covers {
 			e.res.Covers = append(e.res.Covers, c)
 		}
 		e.res.Steps = e.steps
 		e.res.Decisions = len(e.taken)
-		if e.res.Status == "panic" || e.res.Status == "budget" {
+		if e.res.Status == "panic" || e.res.Status == "budget" || e.res.Status == "deadlock" {
 			if e.res.Inputs == nil {
 				e.res.Inputs = e.inputSnapshot(e.model)
 			}
